@@ -459,4 +459,46 @@ theorem absolute_filename_rejected (fs : Fs) (fuel : Nat) (cfg : Cfg) (filename 
     (h : filename.head? = some SLASH) : serve fs fuel cfg filename ae = .notFound := by
   simp [serve, serveG, resolvePathG, h]
 
+/-- `sibling` finds nothing when no entry named like a pre-compressed variant is a regular file -/
+theorem sibling_none (fs : Fs) (fuel : Nat) (p : Path) (ae : Str) :
+    ∀ exts : List (Str × Str), (∀ e ∈ exts, ∀ id, osLstat fs fuel (withExt p e.1) ≠ .file id) →
+      sibling fs fuel p ae exts = none := by
+  intro exts
+  induction exts with
+  | nil => intro _; rfl
+  | cons e t ih =>
+    intro h
+    obtain ⟨ext, cod⟩ := e
+    have ht := ih (fun e he => h e (List.mem_cons_of_mem _ he))
+    simp only [sibling]
+    split
+    · split
+      · next id d hl _ => exact absurd hl (h (ext, cod) (List.mem_cons_self ..) id)
+      · exact ht
+    · exact ht
+
+/-- **A regular file is served itself unless a *regular* pre-compressed sibling exists.**  If
+`p` is a real location holding regular file `id` and every entry named `p.br` / `p.gz` is
+something else (directory, FIFO, socket, symbolic link, missing), then whatever
+Accept-Encoding says the answer is that file, uncompressed — a non-regular sibling neither
+replaces it nor makes it disappear. -/
+theorem regular_file_served (fs : Fs) (fuel : Nat) (p : Path) (ae : Str) (id : Nat)
+    (hres : Resolved fs p) (hnorm : NormalPath p) (hfile : fs.lstat p = .file id)
+    (hsib : ∀ e ∈ Gen.C15.encodingExtensions, ∀ i, osLstat fs fuel (withExt p e.1) ≠ .file i) :
+    fileTarget fs fuel p ae = .file p id none := by
+  unfold fileTarget
+  rw [sibling_none fs fuel p ae _ hsib]
+  simp [follow_of_resolved fs fuel p hres hnorm, hfile]
+
+/-- **Confinement along any history of the file system.**  The model keeps no state between
+requests (that the implementation does not either is what the history runs of the harness
+compare): for every sequence of file systems and requests — the tree may change arbitrarily
+from one request to the next — every file served without follow_symlinks is confined in the
+file system *current at that request*. -/
+theorem confined_history (fuel : Nat) (cfg : Cfg) (hfollow : cfg.follow = false)
+    (steps : List (Fs × Str × Str)) (hroot : ∀ s ∈ steps, s.1.lstat cfg.root = .dir) :
+    ∀ s ∈ steps, ∀ p id enc, serve s.1 fuel cfg s.2.1 s.2.2 = .file p id enc →
+      cfg.root <+: p ∧ Resolved s.1 p ∧ s.1.lstat p = .file id :=
+  fun s hs p id enc h => confined s.1 fuel cfg s.2.1 s.2.2 p id enc hfollow (hroot s hs) h
+
 end Aio.C15
